@@ -109,8 +109,16 @@ func c19Populate(t *rapid.T, tdir string) (mustGo, nearMiss int) {
 }
 
 func c19ModeContent(t *rapid.T) (content string, present bool) {
-	k := rapid.SampledFrom([]string{"on", "on-date", "local", "local-date", "off", "off-date", "missing", "garbage", "empty", "on-baddate"}).Draw(t, "modeKind")
+	k := rapid.SampledFrom([]string{"on", "on-date", "local", "local-date", "off", "off-date", "missing", "garbage", "empty", "on-baddate", "future-date", "today-date"}).Draw(t, "modeKind")
 	switch k {
+	case "future-date", "today-date":
+		// a mode recorded with a date after (or at) the current one: a clock that was wrong once, or a hand-edited file
+		m := rapid.SampledFrom([]string{"on", "local", "off"}).Draw(t, "datedMode")
+		d := time.Now().UTC()
+		if k == "future-date" {
+			d = d.AddDate(0, 0, rapid.SampledFrom([]int{1, 2, 8, 400, 30000}).Draw(t, "daysAhead"))
+		}
+		return m + " " + d.Format("2006-01-02"), true
 	case "on":
 		return "on", true
 	case "on-date":
